@@ -515,7 +515,13 @@ func c07Special(st *fw.Stats, add func(sig, msg string)) {
 			pv := try(func() {
 				r.ServeHTTP(w, &http.Request{Method: q[0], URL: u, Header: http.Header{}, Proto: "HTTP/1.1", ProtoMajor: 1, ProtoMinor: 1, Host: "x"})
 			})
-			return fmt.Sprintf("status=%d allow=%q body=%q handler=%d x%d panic=%v", w.Code, w.Header().Get("Allow"), w.Body.String(), rec.idx, rec.n, pv)
+			name := "<no route>"
+			_ = try(func() {
+				if rt, _, _ := r.Match(q[0], q[1]); rt != nil {
+					name = rt.Name()
+				}
+			})
+			return fmt.Sprintf("status=%d allow=%q body=%q handler=%d x%d panic=%v; Match reports the route named %q", w.Code, w.Header().Get("Allow"), w.Body.String(), rec.idx, rec.n, pv, name)
 		}
 		for i, q := range reqs {
 			st.Evals++
